@@ -288,8 +288,9 @@ class Check:
               "violations": len(self.violations),
               "known_findings_reproduced": [k[0].get("signature") for k in self.known_hits],
               "broken_obligations": self.broken, "notes": self.notes, "repo_hash": repo_hash()}
-        with open(os.path.join(VERIF, "evidence", f"{self.pid}.json"), "w") as f:
-            json.dump(ev, f, indent=1, default=str)
+        if not getattr(self, "replaying", False):       # a replay never rewrites the evidence of the last check run
+            with open(os.path.join(VERIF, "evidence", f"{self.pid}.json"), "w") as f:
+                json.dump(ev, f, indent=1, default=str)
         shutil.rmtree(self.scratch, ignore_errors=True)
         for kf, what in self.known_hits:
             print(f"KNOWN-FINDING: property={self.pid} {what}")
